@@ -7,7 +7,7 @@ import subprocess
 import vcheck
 
 AREA = "env"
-FILES = ["main.go", "child.go", "graph.go", "gen.go", "compare.go"]
+FILES = ["main.go", "child.go", "graph.go", "gen.go", "compare.go", "wire.go"]
 
 
 def variant():
@@ -79,12 +79,15 @@ def run(c):
         "process in starlark.ExecFile's freeze)",
     ]
     c.coverage["rule"] = (
-        "generated dawn projects: each of 28 unit kinds alone (recursion, mutual recursion, closures, defaults, nested defs / "
-        "lambdas / comprehensions, containers of 0..3000 elements, shared / cyclic / 1500-deep data, every predeclared kind, "
+        "generated dawn projects: each of 30 unit kinds alone (recursion, mutual recursion, closures, defaults, nested defs / "
+        "lambdas / comprehensions, containers of 0..3000 elements, shared / cyclic / 1500-deep data, a recursive function in front "
+        "of shared lists / dicts / sets / functions, sets and dicts of 12..40-byte strings and bytes as globals / defaults / free "
+        "variables, every predeclared kind, "
         "flags, target references, Cache, labels, helper modules, functions in containers, same-named functions in a cycle, "
         "keyword-only parameters, signatures, builtin aliases, value kinds) for several parameter draws, then random "
         "combinations of 1-4 units in one or two packages sharing a helper module. Per program, in child processes: load + "
-        "fingerprint twice with the BUILD modules forced to load in opposite orders; each sampled mutation; build twice. "
+        "fingerprint in three separate processes (BUILD modules forced to load in opposite orders); decode(fingerprint) compared "
+        "with the extracted graph incl. aliasing; each sampled mutation; build twice. "
         "A case is non-trivial when the real code returned a fingerprint; distinct by driver input line.")
     cfg = model_cfg(c)
     c.prove(extract=False)
@@ -123,6 +126,7 @@ def run(c):
             c.correspond(stream, drv, ps, nontrivial=lambda i, o: o.startswith("ok") or o in ("upToDate", "rerun", "buildError"))
     for k, label in [("fingerprints", "env.judge.terminates"), ("determinism_comparisons", "env.judge.deterministic"),
                      ("sensitivity_comparisons", "env.judge.sensitive"), ("second_build_targets", "env.judge.second_build"),
+                     ("decoded_wiring_checks", "env.judge.decoded_wiring"),
                      ("insensitivity_comparisons", "env.observe.insensitive")]:
         c.count(label, counts.get(k, 0), hist=hists.get("features") if k == "fingerprints" else None,
                 sample={"judge": label, "evaluations": counts.get(k, 0)})
